@@ -17,7 +17,7 @@ RULE = ("split_sync: all 65536 int16 words (exhaustive) in natural, shuffled, co
         "step amplitudes and analog thresholding. Non-trivial: a train with >= 3 events on >= 2 lines; distinct = distinct "
         "(layout | file kind, line subset, slice, dtype) signature")
 ASSUMPTIONS = ["one digital sync word per sample (as in every fixture); 0/1 trains are given as signed or floating arrays"]
-REQUIRED = {"words_checked": 65536, "read_sync_checked": 10, "fronts_checked": 100, "fronts_2d_checked": 100, "strided_sync_checked": 20, "nidq_partial_checked": 8, "analog_lines_checked": 4, "sync_routes_checked": 30, "lf_band_sync_files": 3, "headers_rewritten_in_place": 2}
+REQUIRED = {"words_checked": 65536, "read_sync_checked": 10, "fronts_checked": 100, "fronts_2d_checked": 100, "strided_sync_checked": 20, "nidq_partial_checked": 8, "analog_lines_checked": 4, "sync_routes_checked": 30, "lf_band_sync_files": 3, "headers_rewritten_in_place": 2, "sync_files_with_stale_header": 5}
 CASE_TIMEOUT = 120.0
 EXHAUSTIVE = "split_sync over all 65536 words x 16 bits"
 
@@ -142,7 +142,13 @@ def run_case(case):
         stream = "lf" if (kind in ("3A", "3B1", "3B2", "NPultra") and rng.random() < 0.35) else "ap"      # the LF band carries the same sync word in its last column
         if stream == "lf":
             res.count("lf_band_sync_files")
-        rec = G.make(rng, kind=kind, stream=stream, n=n, sites=None if n == 384 else G.draw_sites(rng, kind, n, "dense"), ns=ns, content="random")
+        # a quarter of the headers were last written while acquisition was still running (fewer samples announced than the file holds); the reader is then
+        # opened with or without the request to keep quiet about it - one sync row per sample of the FILE either way
+        claim = max(1, ns - int(rng.integers(1, ns // 2))) if rng.random() < 0.25 else None
+        rkw = {"ignore_warnings": bool(rng.integers(0, 2))} if claim is not None else {}
+        if claim is not None:
+            res.count("sync_files_with_stale_header")
+        rec = G.make(rng, kind=kind, stream=stream, n=n, sites=None if n == 384 else G.draw_sites(rng, kind, n, "dense"), ns=ns, content="random", claim_ns=claim)
         kind = f"{kind}/{stream}"
         nl = int(rng.integers(1, 17))
         lines = np.sort(rng.choice(16, nl, replace=False))
@@ -158,10 +164,12 @@ def run_case(case):
         b = G.write(rec, scratch())
         use_c = rng.random() < 0.3
         try:
-            sr = spikeglx.Reader(b, sort=bool(rng.integers(0, 2)))
+            sr = spikeglx.Reader(b, sort=bool(rng.integers(0, 2)), **rkw)
             if use_c:
                 sr.compress_file(keep_original=False)
-                sr = spikeglx.Reader(b.with_suffix(".cbin"))
+                sr = spikeglx.Reader(b.with_suffix(".cbin"), **rkw)
+            if claim is not None:
+                kind += f" (header announces {claim} of {ns} samples, {rkw})"
             for sl in (slice(0, ns), slice(None), slice(int(ns * 0.3), int(ns * 0.8)), slice(5, 6), slice(ns - 1, ns)):
                 sy = sr.read_sync(sl)
                 exp = T[sl]
